@@ -415,6 +415,9 @@ def make_array(vals, mask, shape, dtype, rng=None, payloads=True):
             data.append(int(p) if dtype == int and abs(p) < 1e9 else (p if dtype == float else 77))
         else:
             data.append(v)
+    if rng is not None and not any(mask) and rng.random() < 0.3:
+        # nothing missing and no mask array at all (numpy's scalar `nomask`), as many operators and plain conversions deliver it
+        return numpy.ma.array(numpy.array(data, dtype=dtype).reshape(shape))
     a = numpy.ma.array(numpy.array(data, dtype=dtype).reshape(shape), mask=numpy.array(mask, dtype=bool).reshape(shape))
     return a
 
@@ -430,6 +433,15 @@ def rand_array(rng, shape, dtype=float, lattice=None, mask_style=None):
         for k in range(n):
             if rng.random() < 0.3:
                 vals[k] = rng.choice([2.0 ** -30, -2.0 ** -30, 2.0 ** -40, -2.0 ** -36])
+    r = rng.random()
+    if r < 0.04:
+        vals = sorted(vals)                       # data that happens to be sorted, reverse-sorted, constant, or to hold a negative zero
+    elif r < 0.08:
+        vals = sorted(vals, reverse=True)
+    elif r < 0.11:
+        vals = [vals[0]] * n
+    elif r < 0.14 and dtype == float:
+        vals = [(-0.0 if v == 0 else v) for v in vals]
     return make_array(vals, rand_mask(rng, n, mask_style), shape, dtype, rng)
 
 
